@@ -2628,6 +2628,17 @@ GRwriteimage(int32 riid, int32 start[2], int32 in_stride[2], int32 count[2], voi
         HGOTO_ERROR(DFE_RINOTFOUND, FAIL);
     gr_ptr = ri_ptr->gr_ptr;
 
+    /* pixels written to a file that is open for reading only would never be
+       stored (an old-style compressed image is collected in memory and
+       encoded when the access ends: nothing else would refuse this call) */
+    {
+        intn  acc_mode = 0, attached = 0;
+        char *fname    = NULL;
+
+        if (Hfidinquire(gr_ptr->hdf_file_id, &fname, &acc_mode, &attached) != FAIL && !(acc_mode & DFACC_WRITE))
+            HGOTO_ERROR(DFE_DENIED, FAIL);
+    }
+
     comp_type = COMP_CODE_NONE;
     scheme    = ri_ptr->img_dim.comp_tag;
     if (scheme == DFTAG_JPEG5 || scheme == DFTAG_GREYJPEG5 || scheme == DFTAG_JPEG ||
